@@ -1,9 +1,62 @@
 import DspVerif.Driver.Proto
-/-! driver handlers for C08 (stub: no correspondence cases handled yet) -/
+import DspVerif.Model.Resample
+/-! driver handlers for C08: the model of `Model/Resample.lean` at `Float` -/
 namespace Dsp.Driver
-open Dsp.Proto
+open Dsp.Proto Dsp.Resample
+
+/-- `nf` length-prefixed arrays -/
+def takeFrames : Nat → List String → Option (List (Array Float))
+  | 0, _ => some []
+  | n + 1, toks => do
+    let (a, rest) ← takeFloats toks
+    let t ← takeFrames n rest
+    pure (a :: t)
+
+def runFrames (c : Rs Float) : List (Array Float) → List String
+  | [] => []
+  | x :: t =>
+    match c.process x with
+    | .ok (c', y) => fmtFloatArr y :: runFrames c' t
+    | .error _ => "ERR" :: runFrames c t     -- exception: the object is unchanged
+
+/-- the four classes behind the interface of `Rs` -/
+def conv (kind : String) (L M : Nat) (h : Array Float) : Option (Rs Float) :=
+  match kind with
+  | "interp" => some (.int (Interp.init L h))
+  | "decim" => some (.dec (Decim.init M h))
+  | "rateconv" => some (.rc (RateConv.init L M h))
+  | "resampler" => some (Rs.init L M h)
+  | _ => none
 
 def h08 : List String → Option String
+  | "poly" :: m :: fl :: gain :: rest => do
+    let m ← m.toNat?
+    let g ← parseF gain
+    let (h, _) ← takeFloats rest
+    let r := polyphase h m g (fl == "1")
+    let n := (row r 0).size
+    some (s!"{r.size} {n} " ++ fmtFloats (r.toList.flatMap Array.toList))
+  | "sizes" :: [s, p, q] => do
+    let s ← s.toNat?; let p ← p.toNat?; let q ← q.toNat?
+    let pq := simplify p q
+    some s!"{nextSize s p q} {prevSize s p q} {pq.1} {pq.2}"
+  | "resample" :: p :: q :: rest => do
+    let p ← p.toNat?; let q ← q.toNat?
+    let (h, rest) ← takeFloats rest
+    let (x, _) ← takeFloats rest
+    match resample x p q h with
+    | .ok y => some (fmtFloatArr y)
+    | .error _ => some "ERR"
+  | kind :: l :: m :: rest => do
+    let L ← l.toNat?; let M ← m.toNat?
+    let (h, rest) ← takeFloats rest
+    match rest with
+    | nf :: rest =>
+      let nf ← nf.toNat?
+      let frames ← takeFrames nf rest
+      let c ← conv kind L M h
+      some (String.intercalate " " (s!"{c.delay} {c.interpRate} {c.decimRate}" :: runFrames c frames))
+    | [] => none
   | _ => none
 
 end Dsp.Driver
